@@ -5,7 +5,9 @@
 package main
 
 import (
+	crand "crypto/rand"
 	"fmt"
+	"math/rand/v2"
 	"os"
 	"sync"
 	"time"
@@ -192,6 +194,13 @@ func deadlock(withTimer bool) {
 	fmt.Println("deadlock done")
 }
 
+// env: things a process learns from its environment rather than from its input.
+func env() {
+	var b [4]byte
+	crand.Read(b[:])
+	fmt.Println("env", os.Getpid(), os.Getppid(), b, crand.Text()[:6], rand.IntN(1000), time.Now().Unix()%100000)
+}
+
 func main() {
 	mode := "all"
 	if len(os.Args) > 1 {
@@ -210,6 +219,8 @@ func main() {
 		loadfiles(35)
 	case "once":
 		once(5)
+	case "env":
+		env()
 	case "deadlock-timer":
 		deadlock(true)
 	case "deadlock-plain":
